@@ -160,3 +160,14 @@ func init() {
 		})
 	})
 }
+
+func init() {
+	register("C17", "the AI gateway blocks what it must block and caches only what matches", func(w *World, r *Report) {
+		ruleUNI1(w, r)
+		ruleGRDfw(w, r)
+		ruleGRDpattern(w, r)
+		ruleGRDcache(w, r)
+		ruleSIBcachekeys(w, r)
+		ruleGRDinval(w, r)
+	})
+}
